@@ -174,7 +174,7 @@ func c18Field(c *ExecCase) (msg string, nErrors int, hasIndex bool) {
 		callAt[ref.PathKey(call.Path)] = call
 	}
 	var plan *graphql.Plan
-	for _, entry := range []string{"do", "plan"} {
+	for _, entry := range []string{"do", "plan", "cache", "cachenorm"} {
 		lr, err := runEntry(b, c, pr.Text, entry, &plan)
 		if err != nil {
 			return "HARNESS: " + err.Error(), 0, false
@@ -238,6 +238,10 @@ func c18Field(c *ExecCase) (msg string, nErrors int, hasIndex bool) {
 				// byte-counted column
 				ls := lineStarts(pr.Text)
 				okPos[fmt.Sprintf("%d:%d", l, off-ls[l-1]+1)] = true
+			}
+			if entry == "cachenorm" && known("KF-C18-normalized-locations") {
+				stats.R.KnownHit("KF-C18-normalized-locations")
+				continue // located in the text the cached plan was built from (known finding)
 			}
 			for _, loc := range e.Locations {
 				if !okPos[fmt.Sprintf("%d:%d", loc.Line, loc.Column)] {
